@@ -775,8 +775,11 @@ class VectorStarSet(object):
         :param starset: StarSet, from which we pull nearly all of the info that we need
         """
         if starset.Nshells == 0: return
-        if starset == self.starset: return
+        # a StarSet can be regenerated in place (different range): only skip if nothing changed since we were built
+        if starset == self.starset and \
+                getattr(self, 'generatedfor', None) == (starset.Nshells, starset.Nstates): return
         self.starset = starset
+        self.generatedfor = (starset.Nshells, starset.Nstates)
         dim = starset.crys.dim
         self.vecpos = []
         self.vecvec = []
